@@ -63,6 +63,7 @@ FUNCS = [  # (lean name, file, class, method, translator key, lean type)
     ("decl", "statemachine/events.py", None, "decl", "decl", "D.DeclScript"),
     ("diagram", "statemachine/contrib/diagram.py", None, "diagram", "diagram", "G.DiagramScript"),
     ("engBase", "statemachine/engines/base.py", None, "eng", "eng", "E.EngScript"),
+    ("factory", "statemachine/factory.py", None, "factory", "factory", "F.FactoryScript"),
 ]
 ASYNC_DEF = {"activateAsync", "triggerAsync", "processAsync", "wrapperDunder", "execAsyncCall", "execAsyncAll"}
 
@@ -1926,6 +1927,82 @@ def tr_eng(repo):
             + "  triggerPostInit := " + tp + ",\n  eventPostInit := " + ep + ",\n  extendedKwargs := " + ek + " }")
 
 
+# ----------------------------------------------------------------------------------------- factory.py elaboration
+
+def tr_factory(repo):
+    M = lambda name: method(repo, "statemachine/factory.py", "StateMachineMetaclass", name)
+
+    def whole(fn, table, what):
+        t = "\n".join(ntext(x) for x in _body(fn))
+        for pat, val in table:
+            if re.match(pat, t, flags=re.S):
+                return "[" + ", ".join(val) + "]"
+        raise Untranslatable(f"{what}: body not recognised: {t!r}")
+    ai = whole(M("add_inherited"), [(
+        r"^for base in bases:\n    for state in getattr\(base, 'states', \[\]\):\n"
+        r"        cls\.add_state\(state\.id, state, inherited=True\)\n"
+        r"    events = getattr\(base, '_events', \{\}\)\n    for event in events:\n"
+        r"        cls\.add_event\(event=Event\(id=event\.id, name=event\.name\)\)$",
+        [".inheritStatesOfEachBase", ".redeclareEventsOfEachBaseById"])], "add_inherited")
+    afa = whole(M("add_from_attributes"), [(
+        r"^for key, value in attrs\.items\(\):\n    if isinstance\(value, States\):\n        cls\._add_states_from_dict\(value\)\n"
+        r"    if isinstance\(value, State\):\n        cls\.add_state\(key, value\)\n"
+        r"    elif isinstance\(value, \(Transition, TransitionList\)\):\n"
+        r"        cls\.add_event\(event=Event\(transitions=value, id=key, name=key\)\)\n"
+        r"    elif isinstance\(value, \(Event,\)\):\n"
+        r"        cls\.add_event\(event=Event\(transitions=value\._transitions, id=key, name=value\.name\), old_event=value\)\n"
+        r"    elif getattr\(value, 'attr_name', None\):\n        cls\._add_unbounded_callback\(key, value\)$",
+        [".ifStatesAddEach", ".ifStateAddState", ".elifTransitionsAddEventNamedByAttribute",
+         ".elifEventAddEventKeepingNameRememberingOld", ".elifDecoratedCallback"])], "add_from_attributes")
+    asd = whole(M("_add_states_from_dict"), [(
+        r"^for state_id, state in states\.items\(\):\n    cls\.add_state\(state_id, state\)$", [".addEachStateOfDict"])],
+        "_add_states_from_dict")
+    auc = whole(M("_add_unbounded_callback"), [(
+        r"^setattr\(cls, func\.attr_name, func\)\nif func\.is_event:\n"
+        r"    cls\.add_event\(event=Event\(func\._transitions, id=attr_name, name=attr_name\)\)$",
+        [".setCallbackUnderItsAttrName", ".ifEventAddEventNamedByAttribute"])], "_add_unbounded_callback")
+    fn = M("add_state")
+    if [a.arg for a in fn.args.args] != ["cls", "id", "state", "inherited"]:
+        raise Untranslatable("add_state: parameters")
+    ast_ = whole(fn, [(
+        r"^state\._set_id\(id\)\ncls\.states\.append\(state\)\ncls\.states_map\[state\.value\] = state\n"
+        r"if not hasattr\(cls, id\):\n    setattr\(cls, id, state\)\n"
+        r"for event in state\.transitions\.unique_events:\n    if inherited and event\._has_real_id:\n"
+        r"        event = Event\(id=event\.id, name=event\.name\)\n    cls\.add_event\(event\)$",
+        [".setId", ".appendToStates", ".mapValueToState", ".setAttrUnlessPresent",
+         ".registerEventsOfItsTransitionsFreshIfInherited"])], "add_state")
+    fn = M("add_event")
+    if [a.arg for a in fn.args.args] != ["cls", "event", "old_event"]:
+        raise Untranslatable("add_event: parameters")
+    ae = whole(fn, [(
+        r"^if not event\._has_real_id:\n    if event not in cls\._events_to_update:\n"
+        r"        cls\._events_to_update\[event\] = None\n    return\n"
+        r"transitions = event\._transitions\nif transitions is not None:\n"
+        r"    transitions\._on_event_defined\(event=event, states=list\(cls\.states\)\)\n"
+        r"if event not in cls\._events:\n    cls\._events\[event\] = None\n    setattr\(cls, event\.id, event\)\n"
+        r"if old_event is not None:\n    cls\._events_to_update\[old_event\] = event\nreturn cls\._events\[event\]$",
+        [".idlessRememberAndReturn", ".tellTransitionsWithStatesSoFar", ".declareIfNew", ".rememberReplacement",
+         ".retDeclared"])], "add_event")
+    uer = whole(M("_update_event_references"), [(
+        r"^for old_event, new_event in cls\._events_to_update\.items\(\):\n    for state in cls\.states:\n"
+        r"        for transition in state\.transitions:\n            if transition\._events\.match\(old_event\):\n"
+        r"                if new_event is None:\n                    raise InvalidDefinition\(.*?\)\n"
+        r"                transition\.events\._replace\(old_event, new_event\)\ncls\._events_to_update = \{\}$",
+        [".forEachPendingScanAllTransitionsReplaceOrRaise", ".resetPending"])], "_update_event_references")
+    fn = M("_setup")
+    body = _body(fn)
+    if len(body) != 2 or ntext(body[0]) != "for visited in iterate_states_and_transitions(cls.states):\n    visited._setup()":
+        raise Untranslatable("_setup: not the loop over states and transitions followed by _protected_attrs")
+    m = re.match(r"^cls\._protected_attrs = \{(.*)\} \| \{X0\.id for X0 in cls\.states\}$", ntext(body[1]), flags=re.S)
+    if not m:
+        raise Untranslatable(f"_setup: _protected_attrs: {ntext(body[1])!r}")
+    names = sorted(x.strip().strip("'") for x in m.group(1).split(","))
+    setup = "[.setupEveryStateAndTransition, .protectedAttrs " + _strlist(names) + "]"
+    return ("{\n  addInherited := " + ai + ",\n  addFromAttributes := " + afa + ",\n  addStatesFromDict := " + asd
+            + ", addUnboundedCallback := " + auc + ",\n  addState := " + ast_ + ",\n  addEvent := " + ae
+            + ",\n  updateEventReferences := " + uer + ",\n  setup := " + setup + " }")
+
+
 TRANSLATORS = {"eventcall": tr_eventcall, "send": tr_send, "start": tr_start, "injected": tr_injected,
                "activate": tr_activate, "trigger": tr_trigger, "process": tr_process, "wrapper": tr_wrapper,
                "executor": tr_executor, "bind": tr_bind,
@@ -1974,6 +2051,9 @@ def translate(repo):
                 continue
             if key == "eng":
                 res[name] = (ty, tr_eng(repo), None)
+                continue
+            if key == "factory":
+                res[name] = (ty, tr_factory(repo), None)
                 continue
             if key == "injected":
                 if [ast.unparse(d) for d in fn.decorator_list] != ["property"]:
@@ -2112,6 +2192,12 @@ SELFTEST_EDITS = [
     ("statemachine/event_data.py", "        kwargs[\"source\"] = self.source", "        kwargs[\"source\"] = self.state"),
     ("statemachine/event_data.py", "        self.state = self.transition.source", "        self.state = self.transition.target"),
     ("statemachine/engines/sync.py", "        super().start()\n        self.activate_initial_state()", "        super().start()"),
+    ("statemachine/factory.py", "            transitions._on_event_defined(event=event, states=list(cls.states))", "            transitions._on_event_defined(event=event, states=cls.states)"),
+    ("statemachine/factory.py", "        cls.states_map[state.value] = state\n", "        cls.states_map.setdefault(state.value, state)\n"),
+    ("statemachine/factory.py", "            if inherited and event._has_real_id:\n                event = Event(id=event.id, name=event.name)\n", ""),
+    ("statemachine/factory.py", "            \"send\",\n", ""),
+    ("statemachine/factory.py", "        if not hasattr(cls, id):\n            setattr(cls, id, state)", "        setattr(cls, id, state)"),
+    ("statemachine/factory.py", "                cls.add_state(state.id, state, inherited=True)", "                cls.add_state(state.id, state)"),
 ]
 
 
@@ -2154,6 +2240,7 @@ import SMV.Src.IRReg
 import SMV.Src.IRDecl
 import SMV.Src.IRDiagram
 import SMV.Src.IREng
+import SMV.Src.IRFactory
 /-! GENERATED by `harness/srcgen.py --write-expected` from the tree the theorems of `SMV/Src/Tie.lean` were
 proved for. Do not edit by hand. -/
 """
